@@ -10,16 +10,20 @@ _m(
     "other cases, else asymmetric; given as an explicit list of signed pixel indices in stack order; optional sub-mask (random "
     "3..n-1 of the n pixels, 2 in 3); reciprocal sampling 0.01..0.05 1/A per axis (isotropic or not), passed in 1/A or in mrad; "
     "energy 60/80/200/300 keV; scan shape (sx, sy) in [4..12]^2 (odd, even, non-square) with scan sampling chosen so that the "
-    "scan-frequency step is 0.4..2.5 detector pixels; stack = 1 + eps * N(0,1) float32, eps in {0.05, 0.1, 0.2, 0.5}, from a "
+    "scan-frequency step is 0.4..2.5 detector pixels; stack = 1 + eps * N(0,1) float32, eps in {0.1, 0.2, 0.5, 1}, from a "
     "drawn seed; aberrations = random subset of {C10, C12, phi12, C21, phi21, C30} (analytic cases: {C10, C12, phi12} or none) "
     "scaled so that the geometric shift at the mask edge is up to ~3 scan pixels, each key canonical or by its alias (defocus, "
     "astigmatism, astigmatism_angle, coma, coma_angle, Cs), dictionary order either way; rotation angle 0 or in [-pi, pi]; "
     "semi-angle cut-off crossing the mask edge (soft-aperture weights in (0,1)) or 3x the mask radius (all weights 1); "
-    "hyper-parameters given at construction or as override_* arguments of reconstruct.  (meta) adds kernel name over all 24 "
+    "hyper-parameters given at construction or as override_* arguments of reconstruct; 1 case in 5 is a 'lattice' "
+    "configuration (isotropic sampling, scan-frequency step 0.5/1/2 detector pixels exactly, rotation and aberration angles "
+    "multiples of pi/4, cut-off on a half-integer pixel radius) where exact ties and transfer-function zeros occur.  (meta) adds kernel name over all 24 "
     "spellings of the five kernels (ssb/single-sideband/acbf/..., obf, mf, prlx/parallax/tcbf/..., icom/center-of-mass, mixed "
-    "case) with a second spelling of the same kernel for the batched calls, upsampling None/1/2/3, q_lowpass (1 in 3, above the "
-    "first scan frequency) and q_highpass (1 in 4), parallax_flip_phase, soft_edges, the batch sizes {1, n-1, n, largest "
-    "non-divisor of n} + up to 3 more (all of 1..n when n <= 9), a second stack seed with coefficients a, b in [-2, 2] \\ {0} "
+    "case) with a second spelling of the same kernel for the batched calls, upsampling None/1/2/3, q_lowpass (1 in 2, above the "
+    "first scan frequency) and q_highpass (1 in 3), parallax_flip_phase, soft_edges, the batch sizes {1, n-1, n, largest "
+    "non-divisor of n} + up to 3 more (all of 1..n when n <= 9) + one size > n (1 in 3), a call history of 0..2 earlier "
+    "reconstruct calls on the re-used instance (any kernel spelling, rotation angle changed by 0.05..3 rad with the same "
+    "aberrations (3 in 4) or halved aberrations, any batch size), a second stack seed with coefficients a, b in [-2, 2] \\ {0} "
     "and a batch size for the linearity runs, and a random bipartition of the reconstruction mask.  (analytic) parallax "
     "spelling, parallax_flip_phase=False, no upsampling/filters, random batch size.  A meta case is NON-TRIVIAL when the "
     "reconstruction mask has >= 4 pixels, at least one tested batch size b with 1 < b < n does not divide n (>= 2 batches of "
@@ -29,10 +33,21 @@ _m(
     "SHA-1 of the canonical JSON of the whole case.",
     [
         "float32 pipeline; every comparison is relative to the largest magnitude of the compared results (for corrected_bf: max "
-        "|corrected_bf| + max |corrected_stack|, because the sum may cancel).  Tolerances / largest error measured on the clean "
-        "tree (see note): schedule invariance and sub-mask-vs-fresh-instance 5e-6, linearity 5e-5 (rounding of the float32 FFT "
-        "of 1 + eps*noise is ~1e-7/eps relative to the DC-free signal), recombination of complementary sub-masks 2e-5, "
-        "analytic parallax 1e-4",
+        "|corrected_bf| + max |corrected_stack|, because the sum may cancel).  Tolerance / largest error measured on the clean "
+        "tree over 3 600 meta + 7 200 analytic cases: schedule invariance and call history 1e-5 / 7.2e-7 (kernels without "
+        "gamma), sub-mask vs fresh instance 2e-5 / 1.6e-6, linearity 1e-4 / 1.75e-5 at eps = 0.05 (rounding of the float32 "
+        "FFT of 1 + eps*noise is ~1e-7/eps relative to the DC-free signal; eps >= 0.1 is generated now), recombination of "
+        "complementary sub-masks 2e-5 / 4.3e-7, analytic parallax 1e-4 / 3.2e-6",
+        "ROUNDING SENSITIVITY of the ssb/obf/mf kernels: their Fourier factors contain gamma = P(q-k)P*(k) - P*(q+k)P(k), a "
+        "difference of two O(1) terms with float32 phase errors ~1e-7 |chi|, and ssb/obf divide by |gamma| resp. sqrt(sum "
+        "|gamma|^2); last-bit differences between torch code paths for different batch shapes (or detector-grid sizes) are "
+        "amplified without bound near the zeros of the transfer function (observed 8e-6 of max |result| in an ordinary case, "
+        "5 % in a shrunk symmetric case), so no fixed tolerance is sound.  Comparisons between runs whose batch composition "
+        "or detector grid differs (relations 1, 3, 5) therefore allow, in addition to the tolerance, the measured change of "
+        "the same un-batched reconstruction under a 3e-6 relative change of every hyper-parameter (~50 float32 ulp; angles "
+        "3e-6 rad) (for corrected_bf: that change + sqrt(n) x the per-image change); comparisons between runs with identical "
+        "batch composition (linearity, call history) get no such allowance -- their kernel factors are bit-identical.  Largest "
+        "error as a fraction of the allowance on the clean tree: 0.15",
         "aperture weights W = sum_k |probe(k)|^2 are recomputed by the harness from the public evaluate_probe / "
         "spatial_frequencies functions on the un-cropped grid with the harness's own wavelength (CODATA constants; differs "
         "from quantem's by ~2e-7 relative) and the default soft aperture, which is what reconstruct normalises by; the "
@@ -46,15 +61,21 @@ _m(
         "given to the Nyquist frequency); TRUSTED CONVENTION: image k is moved by +s_k (out(x) = v_k(x - s_k)) -- the "
         "property fixes magnitude and axis, the sign was calibrated once against the pinned tree and is frozen in "
         "vq/refs/c04_ref.py; the alias table (defocus = -C10, others 1:1) is the harness's own, as pinned by C12",
-        "relation (5) (reconstruct(bf_mask=sub) equals a fresh instance built from the sub-mask and its images only) is the "
-        "harness's reading of 'a function of the stack, the mask and the hyper-parameters only'; it is what reaches the "
-        "sub-mask -> stack index mapping for the two-pass kernels, which the recombination relation does not cover",
+        "relation (5) (reconstruct(bf_mask=sub) equals a fresh instance built from the sub-mask and its images only) and the "
+        "call-history relation (a call on an instance that has been used before with other hyper-parameters equals the same "
+        "call on a fresh instance) are the harness's reading of 'a deterministic function of the stack, the mask and the "
+        "hyper-parameters only'; (5) is what reaches the sub-mask -> stack index mapping for the two-pass kernels, which the "
+        "recombination relation does not cover",
+        "recombination is asserted for soft_edges=True instances, and for soft_edges=False instances only when every mask pixel "
+        "has aperture weight 1 (reconstruct normalises by the soft-aperture weight even for hard-edge instances; which "
+        "weight the statement means there is left open)",
         "gc.freeze() is called once in the harness process so that the two gc.collect() calls inside reconstruct cost ~1 ms "
         "instead of ~0.1 s; nothing in quantem is patched",
     ],
     workers=(1, 16),
     technique="property-based testing (Hypothesis): metamorphic relations on generated configurations (batch-size invariance on a "
-    "re-used instance, linearity in the stack, weighted recombination of complementary sub-masks, sub-mask vs fresh instance) "
+    "re-used instance with a call history, linearity in the stack, weighted recombination of complementary sub-masks, sub-mask "
+    "vs fresh instance) "
     "and a float64 reference model for the parallax kernel (autograd shifts + DFT translation)",
     text="Generated-input search.  Each configuration is reconstructed 10-25 times through the public entry point and the "
     "results are compared with each other according to the relations the property names; parallax reconstructions without "
